@@ -53,11 +53,19 @@ Definition store := list (id * doc).
    exist); `tmpf` = the temporary document file of the repaired FilesystemBackend.put; `tmpz` = the temporary
    archive of ZipFileBackend._update.  Temporary files are never listed.                                          *)
 
-Record disk := { main : option store; tmpf : option doc; tmpz : option store }.
+(* `pend` = an in-place append to the archive that is physically in the file while the central directory is not
+   written yet (the old directory is overwritten by the new entry: the file is not a readable archive).          *)
+Record disk := { main : option store; tmpf : option doc; tmpz : option store; pend : option store }.
+
+Definition set_main (m : option store) (d : disk) : disk :=
+  {| main := m; tmpf := tmpf d; tmpz := tmpz d; pend := pend d |}.
+Definition set_tmpf (t : option doc) (d : disk) : disk :=
+  {| main := main d; tmpf := t; tmpz := tmpz d; pend := pend d |}.
+Definition set_tmpz (z : option store) (d : disk) : disk :=
+  {| main := main d; tmpf := tmpf d; tmpz := z; pend := pend d |}.
 
 Definition view (d : disk) : store := match main d with Some s => s | None => [] end.
-Definition on_main (f : store -> store) (d : disk) : disk :=
-  {| main := option_map f (main d); tmpf := tmpf d; tmpz := tmpz d |}.
+Definition on_main (f : store -> store) (d : disk) : disk := set_main (option_map f (main d)) d.
 
 Inductive prim :=
 (* DictBackend *)
@@ -72,13 +80,17 @@ Inductive prim :=
 | PFsTmpWrite (d : doc)
 | PFsReplace (i : id)
 (* ZipFileBackend *)
-| PZAppend (i : id) (d : doc)          (* ZipFile(root, 'a').writestr *)
+| PZAppendData (i : id) (d : doc)      (* ZipFile(root, 'a').writestr: the entry overwrites the central directory *)
+| PZAppendDir                          (* ZipFile.close: the new central directory is written *)
 | PZMkTemp                             (* tempfile.mkstemp ; os.close *)
 | PZCopyExcept (i : id)                (* copy every entry but i into the temporary archive *)
 | PZRemoveArchive                      (* os.remove(root) *)
 | PZRename                             (* os.rename(tmp, root) *)
 | PZTmpAdd (i : id) (d : doc)          (* repaired: the new entry is written into the temporary archive *)
-| PZReplace.                           (* repaired: os.replace(tmp, root) *)
+| PZReplace                            (* repaired: os.replace(tmp, root) *)
+(* clean-up code of the `except BaseException` clauses (runs after a failure that raises, not after a kill) *)
+| PFsTmpRemove                         (* os.remove(tmp_path) *)
+| PZTmpRemove.                         (* os.remove(tmpname) *)
 
 Definition step (p : prim) (d : disk) : disk :=
   match p with
@@ -87,28 +99,31 @@ Definition step (p : prim) (d : disk) : disk :=
   | PFsOpenTrunc i => on_main (aset i Partial) d
   | PFsWrite i x => on_main (aset i x) d
   | PFsRemove i => on_main (adel i) d
-  | PFsTmpCreate => {| main := main d; tmpf := Some Partial; tmpz := tmpz d |}
-  | PFsTmpWrite x => {| main := main d; tmpf := Some x; tmpz := tmpz d |}
+  | PFsTmpCreate => set_tmpf (Some Partial) d
+  | PFsTmpWrite x => set_tmpf (Some x) d
   | PFsReplace i =>
       match tmpf d with
-      | Some x => {| main := option_map (aset i x) (main d); tmpf := None; tmpz := tmpz d |}
+      | Some x => set_tmpf None (on_main (aset i x) d)
       | None => d
       end
-  | PZAppend i x => on_main (fun s => adel i s ++ [(i, x)]) d
-  | PZMkTemp => {| main := main d; tmpf := tmpf d; tmpz := Some [] |}
-  | PZCopyExcept i => {| main := main d; tmpf := tmpf d; tmpz := Some (adel i (view d)) |}
-  | PZRemoveArchive => {| main := None; tmpf := tmpf d; tmpz := tmpz d |}
-  | PZRename =>
+  | PZAppendData i x =>
+      {| main := None; tmpf := tmpf d; tmpz := tmpz d; pend := Some (adel i (view d) ++ [(i, x)]) |}
+  | PZAppendDir =>
+      match pend d with
+      | Some z => {| main := Some z; tmpf := tmpf d; tmpz := tmpz d; pend := None |}
+      | None => d
+      end
+  | PZMkTemp => set_tmpz (Some []) d
+  | PZCopyExcept i => set_tmpz (Some (adel i (view d))) d
+  | PZRemoveArchive => set_main None d
+  | PZRename | PZReplace =>
       match tmpz d with
-      | Some z => {| main := Some z; tmpf := tmpf d; tmpz := None |}
+      | Some z => set_tmpz None (set_main (Some z) d)
       | None => d
       end
-  | PZTmpAdd i x => {| main := main d; tmpf := tmpf d; tmpz := option_map (fun z => adel i z ++ [(i, x)]) (tmpz d) |}
-  | PZReplace =>
-      match tmpz d with
-      | Some z => {| main := Some z; tmpf := tmpf d; tmpz := None |}
-      | None => d
-      end
+  | PZTmpAdd i x => set_tmpz (option_map (fun z => adel i z ++ [(i, x)]) (tmpz d)) d
+  | PFsTmpRemove => set_tmpf None d
+  | PZTmpRemove => set_tmpz None d
   end.
 
 Definition run (ps : list prim) (d : disk) : disk := fold_left (fun d p => step p d) ps d.
@@ -116,7 +131,7 @@ Definition run (ps : list prim) (d : disk) : disk := fold_left (fun d p => step 
 (* does the primitive change what a reader of the storage can see?  (temporary files are invisible) *)
 Definition publishes (p : prim) : bool :=
   match p with
-  | PFsTmpCreate | PFsTmpWrite _ | PZMkTemp | PZCopyExcept _ | PZTmpAdd _ _ => false
+  | PFsTmpCreate | PFsTmpWrite _ | PZMkTemp | PZCopyExcept _ | PZTmpAdd _ _ | PFsTmpRemove | PZTmpRemove => false
   | _ => true
   end.
 
@@ -125,10 +140,12 @@ Definition publishes (p : prim) : bool :=
 
 Inductive backend := BDict | BFs | BZip.
 (* which repairs are in place: `current` is the code as it is now (checked against /repo by the correspondence on every
-   run); `snapshot` is the pinned snapshot, kept to state why the repairs were needed.                           *)
-Record variant := { fs_put_is_atomic : bool; zip_update_is_atomic : bool }.
-Definition snapshot : variant := {| fs_put_is_atomic := false; zip_update_is_atomic := false |}.
-Definition repaired : variant := {| fs_put_is_atomic := true; zip_update_is_atomic := true |}.
+   run); `snapshot` is the pinned snapshot and `round1` the code after repo commit 61710b6, kept to state why the
+   repairs were needed.                                                                                          *)
+Record variant := { fs_put_is_atomic : bool; zip_update_is_atomic : bool; zip_new_entry_in_place : bool }.
+Definition snapshot : variant := {| fs_put_is_atomic := false; zip_update_is_atomic := false; zip_new_entry_in_place := true |}.
+Definition round1 : variant := {| fs_put_is_atomic := true; zip_update_is_atomic := true; zip_new_entry_in_place := true |}.
+Definition repaired : variant := {| fs_put_is_atomic := true; zip_update_is_atomic := true; zip_new_entry_in_place := false |}.
 Definition current : variant := repaired.
 
 Definition put_steps (v : variant) (b : backend) (d : disk) (i : id) (x : doc) : list prim :=
@@ -137,10 +154,10 @@ Definition put_steps (v : variant) (b : backend) (d : disk) (i : id) (x : doc) :
   | BFs => if fs_put_is_atomic v then [PFsTmpCreate; PFsTmpWrite x; PFsReplace i]
            else [PFsOpenTrunc i; PFsWrite i x]
   | BZip =>
-      if has i (view d) then
+      if has i (view d) || negb (zip_new_entry_in_place v) then
         if zip_update_is_atomic v then [PZMkTemp; PZCopyExcept i; PZTmpAdd i x; PZReplace]
-        else [PZMkTemp; PZCopyExcept i; PZRemoveArchive; PZRename; PZAppend i x]
-      else [PZAppend i x]
+        else [PZMkTemp; PZCopyExcept i; PZRemoveArchive; PZRename; PZAppendData i x; PZAppendDir]
+      else [PZAppendData i x; PZAppendDir]
   end.
 
 Definition del_steps (v : variant) (b : backend) (d : disk) (i : id) : list prim :=
@@ -274,7 +291,22 @@ Fixpoint run_ops (v : variant) (b : backend) (d : disk) (c : cache) (l : list op
       end
   end.
 
-Definition empty_disk : disk := {| main := Some []; tmpf := None; tmpz := None |}.
+Definition empty_disk : disk := {| main := Some []; tmpf := None; tmpz := None; pend := None |}.
+
+(* what the `except BaseException` clause of the interrupted backend call does when a primitive RAISES; when the
+   process is killed nothing of this runs *)
+Definition cleanup_steps (b : backend) : list prim :=
+  match b with BDict => [] | BFs => [PFsTmpRemove] | BZip => [PZTmpRemove] end.
+
+Inductive crash_kind := Killed | Raised.
+
+(* the disk after the operation was interrupted before its k-th primitive *)
+Definition after_crash (ck : crash_kind) (b : backend) (steps : list prim) (k : nat) (d : disk) : disk :=
+  let d' := run (firstn k steps) d in
+  match ck with
+  | Killed => d'
+  | Raised => if Nat.ltb k (length steps) then run (cleanup_steps b) d' else d'
+  end.
 
 (* ------------------------------------------------------------------------------------------------------------ *)
 (* the property's vocabulary (executable)                                                                          *)
